@@ -1858,6 +1858,7 @@ func (ls *LState) PCall(nargs, nret int, errfunc *LFunction) (err error) {
 						}
 						ls.stack.SetSp(sp)
 						ls.currentFrame = ls.stack.Last()
+						ls.closeUpvalues(base)
 						ls.reg.SetTop(base)
 					}
 				}()
@@ -1868,6 +1869,9 @@ func (ls *LState) PCall(nargs, nret int, errfunc *LFunction) (err error) {
 			}
 			ls.stack.SetSp(sp)
 			ls.currentFrame = ls.stack.Last()
+			// the registers above base are about to be reused: detach every upvalue still pointing there
+			// (raiseError skips this while an error handler is installed, also for nested protected calls)
+			ls.closeUpvalues(base)
 			ls.reg.SetTop(base)
 		}
 		ls.stack.SetSp(sp)
